@@ -668,7 +668,8 @@ def dispatch_eval(ctx, rule, funcs):
                     xyz = Ten.sym("x", (F_, A_, 3))
                     box = Ten.sym("box", (F_, 3, 3)) if cell else None
                     ang = Ten.sym("ang", (F_, 3)) if cell else None
-                    traj = Obj(xyz=xyz, _xyz=xyz, unitcell_vectors=box, unitcell_angles=ang, _have_unitcell=cell, n_atoms=A_, n_frames=F_)
+                    traj = Obj(xyz=xyz, _xyz=xyz, unitcell_vectors=box, unitcell_angles=ang, _have_unitcell=cell, n_atoms=A_, n_frames=F_,
+                               unitcell_lengths=Ten.sym("len", (F_, 3)) if cell else None, unitcell_volumes=Ten.sym("vol", (F_,)) if cell else None)
                     calls = []
                     flags = []
 
